@@ -413,8 +413,15 @@ def step_data(spec):
         for j in range(p):
             if r.rand() < 0.5:
                 X[:, j] = r.binomial(1, 0.5, n)
+    xdt = spec.get('xdtype', 'float64')
+    if xdt != 'float64':
+        # whole-number measurements (age, BMI, counts) stored compactly: products of two columns exceed the storage type's
+        # range, the documented design is still the real-number product
+        hi = {'int8': 90, 'uint8': 200, 'int16': 900}[xdt]
+        X = r.randint(2, hi, size=(n, p)).astype(float)
+    Z = X if xdt == 'float64' else (X - X.mean(axis=0)) / (X.std(axis=0) + 1e-9)
     beta = np.round(r.uniform(-0.8, 0.8, p), 2) * (r.rand(p) < 0.6)
-    lin = X @ beta + (0.5 * X[:, 0] * X[:, -1] if p > 1 and r.rand() < 0.5 else 0)
+    lin = Z @ beta + (0.5 * Z[:, 0] * Z[:, -1] if p > 1 and r.rand() < 0.5 else 0)
     if spec['family'] == 'gaussian':
         y = np.round(1 + lin + r.normal(size=n), 3)
     elif spec['family'] == 'binomial':
@@ -422,6 +429,8 @@ def step_data(spec):
         y[0], y[1] = 1.0, 0.0
     else:
         y = r.poisson(np.exp(0.2 + 0.5 * lin)).astype(float)
+    if xdt != 'float64':
+        X = X.astype(xdt)
     return X, y
 
 
@@ -477,7 +486,8 @@ def gen_step_specs(ctx):
                 break
         specs.append({'n': rng.randint(30, 80), 'p': p, 'order': order, 'family': rng.choice(['gaussian', 'binomial', 'poisson']),
                       'fwd': rng.random() < 0.5, 'design': rng.choice(['continuous', 'continuous', 'mixed']),
-                      'dseed': rng.randint(0, 2 ** 31 - 1)})
+                      'dseed': rng.randint(0, 2 ** 31 - 1),
+                      'xdtype': rng.choice(['float64', 'float64', 'float64', 'int8', 'uint8', 'int16'])})
     if not ctx.quick:
         specs.append({'n': 60, 'p': 4, 'order': 2, 'family': 'gaussian', 'fwd': False, 'design': 'continuous', 'dseed': rng.randint(0, 2 ** 31 - 1)})
     return specs
@@ -494,11 +504,12 @@ def step_run(spec):
             s.fit(X, y)
             out['cols'] = [int(c) for c in s.cols_optim]
             out['aic'] = float(s.model_optim.aic)
-            out['Xu_ok'] = bool(np.array_equal(StepwiseSL._all_order_interactions_(X, min(spec['order'], X.shape[1])), expand(X, spec['order'])))
-            out['pred_ok'] = bool(np.allclose(s.predict(X), s.model_optim.predict(np.hstack([np.ones((X.shape[0], 1)), expand(X, spec['order'])[:, out['cols']]]))))
+            Xf = np.asarray(X, dtype=float)
+            out['Xu_ok'] = bool(np.array_equal(np.asarray(StepwiseSL._all_order_interactions_(X, min(spec['order'], X.shape[1])), dtype=float), expand(Xf, spec['order'])))
+            out['pred_ok'] = bool(np.allclose(s.predict(X), s.model_optim.predict(np.hstack([np.ones((X.shape[0], 1)), expand(Xf, spec['order'])[:, out['cols']]]))))
         except Exception as e:   # noqa
             out['error'] = '%s: %s' % (type(e).__name__, str(e)[:160])
-        out['table'] = aic_table(expand(X, spec['order']), y, spec['family'])
+        out['table'] = aic_table(expand(np.asarray(X, dtype=float), spec['order']), y, spec['family'])
     return out
 
 
@@ -513,6 +524,7 @@ def check_step(ctx, specs, fails):
         ctx.count('step:order=%d' % spec['order'])
         ctx.count('step:columns=%d' % ncol)
         ctx.count('step:design=' + spec['design'])
+        ctx.count('step:X dtype=' + spec.get('xdtype', 'float64'))
         tbl = o['table']
         if any(v in (float('inf'), float('-inf')) for v in tbl.values()):
             ctx.count('step:skipped-infinite-aic')
